@@ -28,7 +28,7 @@ COMPONENTS = {"real": ["torchphysics Solver/conditions/samplers/models", "pytorc
 
 
 def budget(tier):
-    return {"cases": 700 if tier == "quick" else 15000, "wall": 900 if tier == "quick" else 3300,
+    return {"cases": 700 if tier == "quick" else 15000, "wall": 900 if tier == "quick" else 3000,
             "shrink": 25, "det_legs": 4}
 
 
